@@ -861,34 +861,6 @@ theorem matchF_iff : ∀ (n : Nat) (f t : JV), f.depth < n → Int64Tree f →
 
 /-! ## where the deviations of the current code do not show -/
 
-/-- no index before the last fragment -/
-def innerIdxFree : Path → Bool
-  | [] => true
-  | [_] => true
-  | f :: g :: r => (match f with | .idx _ => false | _ => true) && innerIdxFree (g :: r)
-
-/-- the last fragment is not an index -/
-def finalIdxFree : Path → Bool
-  | [] => true
-  | [f] => (match f with | .idx _ => false | _ => true)
-  | _ :: g :: r => finalIdxFree (g :: r)
-
-/-- no ignore path has an index before its last fragment (the predicate that excludes
-C19-multi-index-ignore) -/
-def NoInnerIdx (ign : List Path) : Prop := ∀ g, g ∈ ign → innerIdxFree g = true
-
-/-- no ignore path ends in an index (the predicate that excludes C19-ignored-length-index) -/
-def NoFinalIdx (ign : List Path) : Prop := ∀ g, g ∈ ign → finalIdxFree g = true
-
-/-- an integer that `float64` holds exactly -/
-def IsFloatExact (i : Int) : Prop := i.natAbs < 2 ^ 53
-
-/-- the roots are an integer and a float, in either order (the pairs that C19-gen-root-number is about) -/
-def numKindMix : JV → JV → Bool
-  | .int _, .flt _ => true
-  | .flt _, .int _ => true
-  | _, _ => false
-
 theorem mem_tailIgnores {f : Frag} {g' : Path} : ∀ {ign : List Path}, g' ∈ tailIgnores f ign →
     ∃ g0 g1 t, g' = g1 :: t ∧ g0 :: g1 :: t ∈ ign
   | [], h => by simp [tailIgnores] at h
@@ -1078,5 +1050,223 @@ theorem diffF_eq_fixed (D : Dev) (ord : List Bytes → List Bytes) :
         intro k
         exact ih one _ _ _ (fun h => (h1 h).tail _) (fun h => (h2 h).tail _) (fun h => (h3 h).member k)
       | _ => rfl
+
+theorem matchElems_congr (p p' : JV → JV → Bool) : ∀ (xs ys : List JV), (∀ x y, y ∈ ys → p x y = p' x y) →
+    matchElems p xs ys = matchElems p' xs ys
+  | [], _, _ => by simp [matchElems]
+  | _ :: _, [], _ => by simp [matchElems]
+  | x :: xs, y :: ys, h => by
+    simp only [matchElems, h x y List.mem_cons_self,
+      matchElems_congr p p' xs ys (fun x' y' hy' => h x' y' (List.mem_cons_of_mem _ hy'))]
+
+theorem matchF_eq_fixed (D : Dev) : ∀ (n : Nat) (f t : JV), (D.floatRound = true → AllInts IsFloatExact t) →
+    matchF D n f t = matchF Dev.fixed n f t := by
+  intro n
+  induction n with
+  | zero => intros; rfl
+  | succ n ih =>
+    intro f t h3
+    cases f with
+    | null => rfl
+    | bool _ => rfl
+    | int _ => rfl
+    | str _ => rfl
+    | big _ => rfl
+    | num _ => rfl
+    | flt x => simp only [matchF, asFloat_eq D t h3]
+    | arr xs =>
+      cases t with
+      | arr ys =>
+        simp only [matchF]
+        rw [matchElems_congr _ _ xs ys (fun x y hy => ih x y (fun h => allInts_mem (h3 h) hy))]
+      | _ => rfl
+    | obj m0 =>
+      cases t with
+      | obj m1 =>
+        simp only [matchF]
+        congr 1
+        funext k
+        exact ih _ _ (fun h => (h3 h).member k)
+      | _ => rfl
+
+/-! ## generic data -/
+
+theorem diffF_here_of_gate (D : Dev) (ord : List Bytes → List Bytes) (n : Nat) (one : Bool) (a b : JV) (ign : List Path)
+    (hg : genGate D a b = false) (hm : D.genRoot = true → numKindMix a b = false) :
+    diffF Dev.fixed ord (n + 1) one a b ign = [here] := by
+  cases a <;> cases b <;> simp_all [genGate, sameGoType, numKindMix, diffF, asInt, asFloat]
+
+theorem matchF_false_of_gate (D : Dev) (n : Nat) (f t : JV)
+    (hg : genGate D f t = false) (hm : D.genRoot = true → numKindMix f t = false) :
+    matchF Dev.fixed (n + 1) f t = false := by
+  cases f <;> cases t <;> simp_all [genGate, sameGoType, numKindMix, matchF, asInt, asFloat]
+
+/-- away from the named exclusions the current code computes what the fixed code computes on plain data -/
+theorem diffTop_eq_fixed (D : Dev) (ord : List Bytes → List Bytes) (fl : Flavour) (one : Bool) (a b : JV) (ign : List Path)
+    (h1 : D.lastIndex = true → NoInnerIdx ign) (h2 : D.tailSkip = true → NoFinalIdx ign)
+    (h3 : D.floatRound = true → AllInts IsFloatExact b)
+    (h4 : D.genRoot = true → fl = .gen → numKindMix a b = false) :
+    diffTop D ord fl one a b ign = diffTop Dev.fixed ord .simple one a b ign := by
+  cases fl with
+  | simple => exact diffF_eq_fixed D ord _ one a b ign h1 h2 h3
+  | gen =>
+    simp only [diffTop]
+    cases hg : genGate D a b with
+    | true => simp only [if_true]; exact diffF_eq_fixed D ord _ one a b ign h1 h2 h3
+    | false =>
+      simp only [Bool.false_eq_true, if_false]
+      exact (diffF_here_of_gate D ord _ one a b ign hg (fun h => h4 h rfl)).symm
+
+theorem altMatch_eq_fixed (D : Dev) (fl : Flavour) (f t : JV)
+    (h3 : D.floatRound = true → AllInts IsFloatExact t)
+    (h4 : D.genRoot = true → fl = .gen → numKindMix f t = false) :
+    altMatch D fl f t = altMatch Dev.fixed .simple f t := by
+  cases fl with
+  | simple => exact matchF_eq_fixed D _ f t h3
+  | gen =>
+    simp only [altMatch]
+    cases hg : genGate D f t with
+    | true => simp only [if_true]; exact matchF_eq_fixed D _ f t h3
+    | false =>
+      simp only [Bool.false_eq_true, if_false]
+      exact (matchF_false_of_gate D _ f t hg (fun h => h4 h rfl)).symm
+
+/-! ## the executable oracle of the specification computes the relations -/
+
+theorem leafDiffsF_other (n : Nat) (a b : JV) (h1 : ¬ ∃ xs ys, a = .arr xs ∧ b = .arr ys)
+    (h2 : ¬ ∃ m0 m1, a = .obj m0 ∧ b = .obj m1) :
+    leafDiffsF (n + 1) a b = if clash a b = true then [[]] else [] := by
+  cases a <;> cases b <;> simp_all [leafDiffsF]
+
+theorem getD_of_getElem? {xs : List JV} {i : Nat} {x : JV} (h : xs[i]? = some x) : xs.getD i .null = x := by
+  simp [List.getD, h]
+
+theorem mem_leafDiffsF : ∀ (n : Nat) (a b : JV) (p : Path), a.depth < n → (p ∈ leafDiffsF n a b ↔ LeafDiff a b p) := by
+  intro n
+  induction n with
+  | zero => intro a b p h; omega
+  | succ n ih =>
+    intro a b p hd
+    by_cases hab : ∃ xs ys, a = .arr xs ∧ b = .arr ys
+    · obtain ⟨xs, ys, rfl, rfl⟩ := hab
+      rw [leafDiff_arr_arr]
+      simp only [leafDiffsF, List.mem_append, List.mem_flatMap, List.mem_range, List.mem_map]
+      constructor
+      · rintro (⟨i, hi, q, hq, rfl⟩ | h)
+        · have hx : xs[i]? = some (xs.getD i .null) := by
+            have : i < xs.length := by omega
+            simp [List.getD, List.getElem?_eq_getElem this]
+          have hy : ys[i]? = some (ys.getD i .null) := by
+            have : i < ys.length := by omega
+            simp [List.getD, List.getElem?_eq_getElem this]
+          exact Or.inl ⟨i, _, _, q, hx, hy,
+            (ih _ _ q (by have := depth_elem hx; omega)).1 hq, rfl⟩
+        · split at h
+          · simp at h
+          · rename_i hne
+            simp at h
+            exact Or.inr ⟨hne, h⟩
+      · rintro (⟨i, x, y, q, hx, hy, hq, rfl⟩ | ⟨hne, rfl⟩)
+        · have h1 : i < xs.length := by
+            rcases Nat.lt_or_ge i xs.length with h | h
+            · exact h
+            · rw [List.getElem?_eq_none h] at hx; cases hx
+          have h2 : i < ys.length := by
+            rcases Nat.lt_or_ge i ys.length with h | h
+            · exact h
+            · rw [List.getElem?_eq_none h] at hy; cases hy
+          refine Or.inl ⟨i, by omega, q, ?_, rfl⟩
+          rw [getD_of_getElem? hx, getD_of_getElem? hy]
+          exact (ih _ _ q (by have := depth_elem hx; omega)).2 hq
+        · right
+          simp [hne]
+    · by_cases hab' : ∃ m0 m1, a = .obj m0 ∧ b = .obj m1
+      · obtain ⟨m0, m1, rfl, rfl⟩ := hab'
+        rw [leafDiff_obj_obj]
+        simp only [leafDiffsF, List.mem_flatMap, List.mem_append, List.mem_map]
+        constructor
+        · rintro ⟨k, _, q, hq, rfl⟩
+          exact ⟨k, q, (ih _ _ q (by have := depth_member k m0; omega)).1 hq, rfl⟩
+        · rintro ⟨k, q, hq, rfl⟩
+          refine ⟨k, ?_, q, (ih _ _ q (by have := depth_member k m0; omega)).2 hq, rfl⟩
+          by_cases hk0 : k ∈ keysOf m0
+          · exact Or.inl hk0
+          · by_cases hk1 : k ∈ keysOf m1
+            · exact Or.inr hk1
+            · rw [member_of_not_mem k m0 hk0, member_of_not_mem k m1 hk1] at hq
+              exact absurd hq (not_leafDiff_null _)
+      · rw [leafDiffsF_other n a b hab hab',
+          leafDiff_here_iff a b (fun xs ys h => hab ⟨xs, ys, h⟩) (fun m0 m1 h => hab' ⟨m0, m1, h⟩)]
+        by_cases hc : clash a b = true
+        · simp [hc]
+        · simp [hc]
+
+/-- `leafDiffs` lists exactly the leaf differences -/
+theorem mem_leafDiffs (a b : JV) (p : Path) : p ∈ leafDiffs a b ↔ LeafDiff a b p :=
+  mem_leafDiffsF _ a b p (Nat.lt_succ_self _)
+
+/-- `specDiffs` lists exactly the leaf differences that no ignore path covers -/
+theorem mem_specDiffs (a b : JV) (ign : List Path) (p : Path) :
+    p ∈ specDiffs a b ign ↔ LeafDiff a b p ∧ ¬ Ignored ign p := by
+  simp [specDiffs, mem_leafDiffs, Ignored]
+
+theorem fpMatchF_other (n : Nat) (f t : JV) (h1 : ¬ ∃ xs ys, f = .arr xs ∧ t = .arr ys)
+    (h2 : ¬ ∃ m0 m1, f = .obj m0 ∧ t = .obj m1) : fpMatchF (n + 1) f t = atomEq f t := by
+  cases f <;> cases t <;> simp_all [fpMatchF]
+
+theorem fpMatchF_iff : ∀ (n : Nat) (f t : JV), f.depth < n → (fpMatchF n f t = true ↔ FpMatch f t) := by
+  intro n
+  induction n with
+  | zero => intro f t h; omega
+  | succ n ih =>
+    intro f t hd
+    by_cases hab : ∃ xs ys, f = .arr xs ∧ t = .arr ys
+    · obtain ⟨xs, ys, rfl, rfl⟩ := hab
+      rw [fpMatch_arr]
+      simp only [fpMatchF, Bool.and_eq_true, beq_iff_eq, List.all_eq_true, List.mem_range]
+      constructor
+      · rintro ⟨hl, h⟩
+        refine ⟨ys, rfl, hl, ?_⟩
+        intro i x y hx hy
+        have h1 : i < xs.length := by
+          rcases Nat.lt_or_ge i xs.length with h | h
+          · exact h
+          · rw [List.getElem?_eq_none h] at hx; cases hx
+        have := h i h1
+        rw [getD_of_getElem? hx, getD_of_getElem? hy] at this
+        exact (ih x y (by have := depth_elem hx; omega)).1 this
+      · rintro ⟨ys', he, hl, h⟩
+        cases he
+        refine ⟨hl, ?_⟩
+        intro i hi
+        have hx : xs[i]? = some (xs.getD i .null) := by
+          simp [List.getD, List.getElem?_eq_getElem hi]
+        have hy : ys[i]? = some (ys.getD i .null) := by
+          have : i < ys.length := by omega
+          simp [List.getD, List.getElem?_eq_getElem this]
+        exact (ih _ _ (by have := depth_elem hx; omega)).2 (h i _ _ hx hy)
+    · by_cases hab' : ∃ m0 m1, f = .obj m0 ∧ t = .obj m1
+      · obtain ⟨m0, m1, rfl, rfl⟩ := hab'
+        rw [fpMatch_obj]
+        simp only [fpMatchF, List.all_eq_true]
+        constructor
+        · intro h
+          exact ⟨m1, rfl, fun k hk => (ih _ _ (by have := depth_member k m0; omega)).1 (h k hk)⟩
+        · rintro ⟨m1', he, h⟩
+          cases he
+          intro k hk
+          exact (ih _ _ (by have := depth_member k m0; omega)).2 (h k hk)
+      · rw [fpMatchF_other n f t hab hab']
+        constructor
+        · exact FpMatch.atom
+        · intro h
+          cases h with
+          | atom h => exact h
+          | arr _ _ => exact absurd ⟨_, _, rfl, rfl⟩ hab
+          | obj _ => exact absurd ⟨_, _, rfl, rfl⟩ hab'
+
+/-- `fpMatchB` decides the fingerprint relation -/
+theorem fpMatchB_iff (f t : JV) : fpMatchB f t = true ↔ FpMatch f t :=
+  fpMatchF_iff _ f t (Nat.lt_succ_self _)
 
 end OjgVerif.Diff
